@@ -419,14 +419,14 @@ pub fn check(c: &Case) -> Outcome {
 pub fn def() -> PropDef {
     PropDef {
         id: "C10",
-        rule: "one honest-content remote peer on the swarm runtime (real connection task + real manager): piece length from {1,5,16383,16384,16385,32768,32769,49153 (+65536,40000,20000 thorough)}, 1-4 pieces, generated shorter last piece, partial bitfield with later Haves; a history of up to 40 ops {answer k-th outstanding request, answer all (rotated), duplicate an answered block, withhold, choke, unchoke, have}. Oracle over the Request frames the client writes, grouped into assignment epochs (a repeated block or a different piece index is only allowed after the manager made a new assignment): every request is a block of the reference tiling of that piece's length, <= 16 KiB, never repeated within an epoch, for a piece the peer advertised; an accepted block while blocks remain unrequested is followed by exactly one further request (also for blocks that were in flight when the peer choked the client: the statement has no choke exception); a piece is Have with its file on disk exactly from the barrier at which every block of its tiling has been delivered within one assignment, never before. Non-trivial = piece length not a multiple of 16 KiB, or an out-of-order or duplicate answer; distinct by hash of the case.",
+        rule: "one honest-content remote peer on the swarm runtime (real connection task + real manager): piece length from {1,5,16383,16384,16385,32768,32769,49153 (+65536,40000,20000 thorough)}, 1-4 pieces, generated shorter last piece, partial bitfield with later Haves; a history of up to 40 ops {answer k-th outstanding request, answer all (rotated), duplicate an answered block, withhold, choke, unchoke, have}. Oracle over the Request frames the client writes, grouped into assignment epochs (a repeated block or a different piece index is only allowed after the manager made a new assignment): every request is a block of the reference tiling of that piece's length, <= 16 KiB, never repeated within an epoch, for a piece the peer advertised; a new assignment the peer did not cause (no Unchoke after a Choke, no finished or cancelled piece) never starts while a piece is under way - also not after 25 s of silence with blocks outstanding (op WithholdLong); an accepted block while blocks remain unrequested is followed by exactly one further request (also for blocks that were in flight when the peer choked the client: the statement has no choke exception); a piece is Have with its file on disk exactly from the barrier at which every block of its tiling has been delivered within one assignment, never before. Non-trivial = piece length not a multiple of 16 KiB, or an out-of-order or duplicate answer; distinct by hash of the case.",
         assumptions: &["the order in which blocks of a piece are requested is not asserted (the property speaks of coverage, not order)"],
         subs: vec![Sub {
             name: "tiling",
             cases: |t| t.pick(25_000, 300_000),
             run: |ctx| run_proptest(ctx, "tiling", strategy(ctx.tier), check),
             replay: |v| replay_case::<Case>(v, check),
-            min_class: &[("piece-length-not-multiple-of-16KiB", 0.3812), ("shorter-last-piece", 0.2603), ("epoch-completed", 0.487), ("out-of-order-answer", 0.1492), ("duplicate-or-stale-answer", 0.1), ("progress-rule-checked", 0.0982), ("choke", 0.1029), ("choke-with-blocks-in-flight", 0.05), ("peer-sends-own-request", 0.2)],
+            min_class: &[("piece-length-not-multiple-of-16KiB", 0.3812), ("shorter-last-piece", 0.2603), ("epoch-completed", 0.487), ("out-of-order-answer", 0.1492), ("duplicate-or-stale-answer", 0.1), ("progress-rule-checked", 0.0982), ("choke", 0.1029), ("choke-with-blocks-in-flight", 0.05), ("peer-sends-own-request", 0.2), ("silent-for-25s-with-blocks-outstanding", 0.08)],
         }],
     }
 }
